@@ -154,7 +154,7 @@ func run(c *checker, rng *lib.Rng) {
 	coqDeep, nBeyond := 100, 3000
 	nSer, coqSer := 3000, 240
 	if thorough {
-		nSer, coqSer = 200000, 8000
+		nSer, coqSer = 60000, 3000
 		coqDeep, nBeyond = 600, 60000
 		maxNodes, nRandom, nText, nData = 8, 600000, 100000, 40000
 		coqExh, coqRandom, coqText, coqScalar, coqPb = 5000, 5000, 6000, 8000, 5000
